@@ -394,8 +394,9 @@ pub fn sop_binop(a: Sop, b: Sop, and: bool, form: u8) -> Sop {
 pub fn arb_cube_list(n: usize, max_base: usize) -> BoxedStrategy<Vec<CB>> {
     // mostly short lists; occasionally long ones (size boundaries such as 64 / 128 entries)
     let base = prop_oneof![
-        30 => vec(arb_cb(n), 0..=max_base),
+        60 => vec(arb_cb(n), 0..=max_base),
         1 => vec(arb_cb(n), 60..=140),
+        1 => (vec(arb_cb(n), 1..=3), vec(0usize..3, 60..=140)).prop_map(|(b, idx)| idx.iter().map(|i| b[i % b.len()].clone()).collect::<Vec<CB>>()),
     ];
     (base, vec((0u8..8, any::<u16>(), any::<u16>(), any::<bool>()), 0..=6))
         .prop_map(move |(mut cubes, extras)| {
@@ -643,8 +644,12 @@ pub fn arb_ob(n: usize, max_terms: usize) -> BoxedStrategy<OB> {
         1 => Just(OB::One),
         2 => var_leaf,
         8 => vec(arb_eb(n), 0..=max_terms).prop_map(OB::FromCubes),
-        // occasionally long term lists (size boundaries such as 64 / 128 terms)
-        1 => vec(arb_eb(n), 30..=140).prop_map(OB::FromCubes),
+        // occasionally long term lists (size boundaries such as 64 / 128 terms): independent terms,
+        // or a few base terms repeated many times (long but far from constant one)
+        1 => prop_oneof![
+            vec(arb_eb(n), 30..=140).boxed(),
+            (vec(arb_eb(n), 1..=3), vec(0usize..3, 30..=140)).prop_map(|(base, idx)| idx.iter().map(|i| base[i % base.len()].clone()).collect::<Vec<EB>>()).boxed(),
+        ].prop_map(OB::FromCubes),
     ];
     leaf.prop_recursive(2, 6, 2, |inner| (inner.clone(), inner, 0u8..4).prop_map(|(a, b, f)| OB::Or(Box::new(a), Box::new(b), f)))
         .boxed()
